@@ -34,6 +34,15 @@ type RegProfile struct {
 	LinkForm        int    `json:"link_form,omitempty"`     // 0-5: "last"-based next links in several spellings; 6,7: opaque continuation token
 	ServerFilter    string `json:"server_filter,omitempty"` // "" | header | annotation
 	MountDeny       string `json:"mount_deny,omitempty"`    // cross-repository mounts from this repository are answered 403
+	BlobRedirect    bool   `json:"blob_redirect,omitempty"` // blob GETs are answered 307 to a storage URL that serves one request
+}
+
+// simStorageHost: where blob redirects (Profile.BlobRedirect) point.
+const simStorageHost = "blobstore.test"
+
+type storedBlob struct {
+	data []byte
+	dgst digest.Digest
 }
 
 type regManifest struct {
@@ -89,7 +98,10 @@ type SimRegistry struct {
 	Fired            map[string]int
 	FaultReq         []int // numbers of the requests whose response was tampered with
 	uploadSeq        int
-	MountDenied      int                               // mount requests answered 403 (Profile.MountDeny)
+	MountDenied      int                   // mount requests answered 403 (Profile.MountDeny)
+	storageTokens    map[string]storedBlob // single-use storage URLs handed out by blob redirects
+	storageSeq       int
+	StorageRefused   int                               // requests to a storage URL that was used up or never issued
 	PagedReferrers   int                               // referrers listings that continued on another page (workload requests only)
 	issuedTokens     map[string]bool                   // opaque continuation tokens handed out in Link headers
 	BodyRead         map[int]*int                      // bytes consumed from response bodies, per request number
@@ -413,6 +425,39 @@ func (s *SimRegistry) route(req *http.Request, body []byte, rec *ReqRecord) simR
 			}
 		}
 	}
+	serveBlob := func(b []byte, d digest.Digest) simResp {
+		h.Set("Content-Type", "application/octet-stream")
+		if s.Profile.DigestHeader {
+			h.Set("Docker-Content-Digest", d.String())
+		}
+		if s.Profile.Range {
+			h.Set("Accept-Ranges", "bytes")
+			if rg := req.Header.Get("Range"); rg != "" && req.Method == http.MethodGet {
+				var a, z int
+				if _, err := fmt.Sscanf(rg, "bytes=%d-%d", &a, &z); err != nil || a < 0 || z < a || a >= len(b) {
+					s.invalid("request %d: unsatisfiable or malformed Range %q for a blob of %d bytes", n, rg, len(b))
+					return plain(416, nil)
+				}
+				if z >= len(b) {
+					z = len(b) - 1
+				}
+				h.Set("Content-Range", fmt.Sprintf("bytes %d-%d/%d", a, z, len(b)))
+				return simResp{status: 206, header: h, body: b[a : z+1], length: int64(z + 1 - a)}
+			}
+		}
+		return simResp{status: 200, header: h, body: b, length: int64(len(b)), noLen: s.Profile.NoContentLength && req.Method == http.MethodGet}
+	}
+	if req.URL.Host == simStorageHost {
+		// the object store behind the registry: every URL it handed out serves one request
+		rec.Class = "blob-storage"
+		sb, ok := s.storageTokens[p]
+		if !ok {
+			s.StorageRefused++
+			return plain(403, nil)
+		}
+		delete(s.storageTokens, p)
+		return serveBlob(sb.data, sb.dgst)
+	}
 	if !strings.HasPrefix(p, "/v2/") {
 		s.invalid("request %d %s %s: path outside /v2/", n, req.Method, p)
 		return plain(404, nil)
@@ -565,26 +610,17 @@ func (s *SimRegistry) route(req *http.Request, body []byte, rec *ReqRecord) simR
 			if !ok {
 				return plain(404, errBody("BLOB_UNKNOWN", "blob unknown"))
 			}
-			h.Set("Content-Type", "application/octet-stream")
-			if s.Profile.DigestHeader {
-				h.Set("Docker-Content-Digest", d.String())
-			}
-			if s.Profile.Range {
-				h.Set("Accept-Ranges", "bytes")
-				if rg := req.Header.Get("Range"); rg != "" && req.Method == http.MethodGet {
-					var a, z int
-					if _, err := fmt.Sscanf(rg, "bytes=%d-%d", &a, &z); err != nil || a < 0 || z < a || a >= len(b) {
-						s.invalid("request %d: unsatisfiable or malformed Range %q for a blob of %d bytes", n, rg, len(b))
-						return plain(416, nil)
-					}
-					if z >= len(b) {
-						z = len(b) - 1
-					}
-					h.Set("Content-Range", fmt.Sprintf("bytes %d-%d/%d", a, z, len(b)))
-					return simResp{status: 206, header: h, body: b[a : z+1], length: int64(z + 1 - a)}
+			if s.Profile.BlobRedirect && req.Method == http.MethodGet {
+				if s.storageTokens == nil {
+					s.storageTokens = map[string]storedBlob{}
 				}
+				s.storageSeq++
+				path := fmt.Sprintf("/data/signed-%d", s.storageSeq)
+				s.storageTokens[path] = storedBlob{data: b, dgst: d}
+				h.Set("Location", "https://"+simStorageHost+path)
+				return simResp{status: 307, header: h}
 			}
-			return simResp{status: 200, header: h, body: b, length: int64(len(b)), noLen: s.Profile.NoContentLength && req.Method == http.MethodGet}
+			return serveBlob(b, d)
 		case http.MethodDelete:
 			if !ok {
 				return plain(404, errBody("BLOB_UNKNOWN", "blob unknown"))
